@@ -217,10 +217,10 @@ C15ok(E, tags, q, period) ==
 
 \* ---------------------------------------------------------------- C16: time-based sources and operators follow the (virtual) clock
 \* tags: "interval" | "timer" | "delay" | "timeout" | "subset" (sample / debounce); period = d in ms; clk of every event in ms
-C16ok(E, tags, q, d) ==
-  LET cbs == SelectSeq(E, LAMBDA e : e.ev = "cbstart" /\ e.u = 1)
-      t0 == IF SubRet(E, 1) # 0 THEN E[SubRet(E, 1)].clk ELSE 0
-      unsubClk == IF UnsubRetP(E, 1) # 0 THEN E[UnsubRetP(E, 1)].clk ELSE 1000000
+C16for(E, tags, q, d, u) ==
+  LET cbs == SelectSeq(E, LAMBDA e : e.ev = "cbstart" /\ e.u = u)
+      t0 == IF SubRet(E, u) # 0 THEN E[SubRet(E, u)].clk ELSE 0
+      unsubClk == IF UnsubRetP(E, u) # 0 THEN E[UnsubRetP(E, u)].clk ELSE 1000000
       emits == SelectSeq(E, LAMBDA e : e.ev = "emitcall" /\ e.src = 1)
   IN /\ HasTag(tags, "interval") =>      \* 0,1,2,... at d, 2d, 3d, ... after subscription until unsubscribed
           /\ \A i \in 1..Len(cbs) : cbs[i].k = "n" /\ cbs[i].v = i - 1 /\ cbs[i].clk = t0 + i * d
@@ -247,11 +247,15 @@ C16ok(E, tags, q, d) ==
      /\ (HasTag(tags, "timeout") \/ HasTag(tags, "timeout-slow")) =>
           \A i \in 1..Len(cbs) : (cbs[i].k = "e" /\ cbs[i].v = -2) => \A j \in 1..Len(emits) : (emits[j].k = "n" /\ emits[j].clk <= cbs[i].clk) => emits[j].clk + d <= cbs[i].clk
      /\ HasTag(tags, "subset") =>        \* sample / debounce: only items the source emitted, in source order, none twice
-          LET dv == Delivered(E, 1)
+          LET dv == Delivered(E, u)
               sv == Emitted(E, 1)
               RECURSIVE IsSubseq(_,_)
               IsSubseq(a, b) == IF a = <<>> THEN TRUE ELSE IF b = <<>> THEN FALSE ELSE IF Head(a) = Head(b) THEN IsSubseq(Tail(a), Tail(b)) ELSE IsSubseq(a, Tail(b))
           IN IsSubseq(dv, sv) /\ NoDup(dv)
+C16ok(E, tags, q, d) == C16for(E, tags, q, d, 1)
+\* C14 for the time-driven sources / operators: two subscribers of the SAME observable value each get what the timed definition
+\* gives for their own subscription (own worker, own timer, own clock origin)
+C14ok(E, tags, q, d) == HasTag(tags, "twice") => \A u \in {1, 2} : (SubRet(E, u) # 0 => C16for(E, tags, q, d, u))
 
 \* ---------------------------------------------------------------- C13 with a source that runs on its own thread
 \* tags: "conn-stop"    the last subscriber leaving stops the source: every emission attempt of the source thread later than
@@ -265,7 +269,7 @@ C13ok(E, tags, q, period) ==
 
 Judge(E, tags, q) ==
   LET fin == q.fin IN
-  [C04 |-> IF C04ok(E, tags, q) THEN "ok" ELSE "bad", C09 |-> IF C09ok(E, tags, q) THEN "ok" ELSE "bad", C15 |-> IF C15ok(E, tags, q, q.period) THEN "ok" ELSE "bad",
+  [C04 |-> IF C04ok(E, tags, q) THEN "ok" ELSE "bad", C14 |-> IF C14ok(E, tags, q, q.period) THEN "ok" ELSE "bad", C09 |-> IF C09ok(E, tags, q) THEN "ok" ELSE "bad", C15 |-> IF C15ok(E, tags, q, q.period) THEN "ok" ELSE "bad",
    C16 |-> IF C16ok(E, tags, q, q.period) THEN "ok" ELSE "bad", C13 |-> IF C13ok(E, tags, q, q.period) THEN "ok" ELSE "bad", C18 |-> IF ~HasTag(tags, "tovec") \/ C18ok(E, q) THEN "ok" ELSE "bad",
    C08 |-> IF ~(HasTag(tags, "queue") \/ HasTag(tags, "default_queue")) \/ C08ok(E, tags, q) THEN "ok" ELSE "bad",
    C19 |-> IF C19ok(E) THEN "ok" ELSE "bad", C05 |-> IF C05ok(E) THEN "ok" ELSE "bad",
